@@ -472,13 +472,15 @@ def leaf_json(v):
     return ["?", repr(type(v))]
 
 
-def snap(td):
+def snap(td, depth=0):
     """structure of the subject read from the raw storage (not through the API under test)"""
     T = _imports()
     out = []
+    if depth > 12:
+        return ["?", "deeper than 12 levels (cyclic storage?)"]
     for k, v in td._tensordict.items():
         if isinstance(v, T["TensorDict"]):
-            out.append([k, snap(v)])
+            out.append([k, snap(v, depth + 1)])
         else:
             out.append([k, leaf_json(v)])
     return ["n", out]
@@ -944,7 +946,7 @@ def op_signature(op, ref):
         flat = [op["sep"].join(p) for p, _ in leaves]
         clash = any(f in ref and (is_node(ref[f]) or (f,) != p) for f, (p, _) in zip(flat, leaves))
         if op["inplace"]:
-            sig["pattern"] = "root-level-leaf" if root_leaf else ("flat-name-equals-root-key" if clash else "other")
+            sig["pattern"] = "flat-name-equals-root-key" if clash else ("root-level-leaf" if root_leaf else "other")
     elif name == "rename":
         p, q = P(op["old"]), P(op["new"])
         if p and q:
@@ -964,7 +966,21 @@ def op_signature(op, ref):
 
 
 def run_history(args):
-    """worker: returns a dict with the case, the protocol line for the model, implementation observations, oracle failures"""
+    """worker; never raises: an exception escaping the harness's own handling (e.g. RecursionError on a storage the
+    implementation made cyclic) is itself reported as an oracle failure of the history"""
+    try:
+        sys.setrecursionlimit(3000)
+        return run_history1(args)
+    except BaseException as e:  # noqa: BLE001
+        hseed, nops, quick, subject, fixed_ops = args
+        case = {"subject": subject, "init": ["n", []], "ops": [], "hseed": hseed, "nops": nops, "regenerate": fixed_ops is None}
+        return {"case": case, "steps": [], "hist": {"harness-exception": 1},
+                "fails": [("history-not-observable", case, {"exception": type(e).__name__, "text": str(e)[:300]},
+                           {"call": "history", "pattern": "exception-escaped:" + type(e).__name__})]}
+
+
+def run_history1(args):
+    """one history: returns a dict with the case, implementation observations per step, oracle failures"""
     hseed, nops, quick, subject, fixed_ops = args
     rng = random.Random(hseed)
     ctr = [0]
@@ -1186,7 +1202,7 @@ def main(R):
     R.step_prove()
     ok = R.step_driver()
     _imports()
-    nh, nops = (260, 22) if R.quick else (9000, 50)
+    nh, nops = (1200, 22) if R.quick else (30000, 50)
     jobs = [(R.rng.getrandbits(48), nops if R.rng.random() < 0.8 else R.rng.randint(3, nops), R.quick, "td", None) for _ in range(nh)]
     # corpus first
     cdir = os.path.join(os.path.dirname(os.path.dirname(os.path.abspath(__file__))), "corpus", PID)
@@ -1212,10 +1228,11 @@ def main(R):
         for (label, c, detail, sig) in res["fails"]:
             R.oracle_fail(label, c, detail, sig)
         R.traces += len(res["steps"])
-        lines.append(history_line(dict(case, flags0=res["steps"][0]["flags"], probes0=res["steps"][0]["probes"])))
+        if res["steps"]:
+            lines.append(history_line(dict(case, flags0=res["steps"][0]["flags"], probes0=res["steps"][0]["probes"])))
     if ok:
         out = R.model(lines)
-        for res, m in zip(results, out):
+        for res, m in zip([r for r in results if r["steps"]], out):
             if not (isinstance(m, list) and len(m) == len(res["steps"])):
                 R.mismatch("history", res["case"], "n/a", repr(m)[:400])
                 continue
@@ -1234,8 +1251,12 @@ def main(R):
 def replay(body):
     _imports()
     case = body["case"]
-    fixed = {"init": case["init"], "ops": case["ops"], "flags0": [list(f) for f in FLAGS], "probes0": []}
-    res = run_history((0, 0, True, case.get("subject", "td"), fixed))
+    if case.get("regenerate"):
+        # the history could not be recorded (an exception escaped): regenerate it from its seed
+        res = run_history((case["hseed"], case["nops"], body.get("tier", "quick") == "quick", case.get("subject", "td"), None))
+    else:
+        fixed = {"init": case["init"], "ops": case["ops"], "flags0": [list(f) for f in FLAGS], "probes0": []}
+        res = run_history((0, 0, True, case.get("subject", "td"), fixed))
     print("implementation, step by step:")
     for st in res["steps"]:
         print("  op:", json.dumps(st["op"]), "->", st.get("outcome"), st.get("exc"), " state:", json.dumps(st["state"]))
